@@ -40,6 +40,17 @@ theorem rankedToCondorcetR_scale (k : Rat) (p : Profile) :
   intro cs pr
   exact padd_scale k cs pr b.2
 
+/-- **RankedToCondorcetVotes(unranked_at_bottom=False) is linear** -/
+theorem rankedToCondorcetNoBottomR_scale (k : Rat) (p : Profile) :
+    Condorcet.rankedToCondorcetNoBottom (scaleR k p) = scaleP k (Condorcet.rankedToCondorcetNoBottom p) := by
+  unfold Condorcet.rankedToCondorcetNoBottom
+  unfold scaleR
+  refine foldl_simMap (scaleP k) _ _ _ ?_ p []
+  intro counts b
+  apply foldl_sim' (scaleP k)
+  intro cs pr
+  exact padd_scale k cs pr b.2
+
 theorem badd_scale (k : Rat) (p : Profile) (b : Ballot) (x : Rat) : badd (scaleR k p) b (k * x) = scaleR k (badd p b x) := by
   unfold scaleR
   induction p with
